@@ -1,16 +1,17 @@
 """Reference parser for MIMALLOC_<NAME> environment values (the documented grammar):
-booleans (1/0, true/false, yes/no, on/off -- the source accepts any substring of its lists), decimal integers with saturation,
+booleans (exactly 1/0, true/false, yes/no, on/off in any letter case, or the empty string = true), decimal integers with saturation,
 sizes with K/M/G/T (+ optional iB/B) for the options kept in KiB, clamped at the maximum allocation size; anything else is malformed and leaves the default."""
 import re
 LONG_MAX = 2**63 - 1; LONG_MIN = -2**63; SIZE_MAX = 2**64 - 1; PTRDIFF_MAX = 2**63 - 1
-TRUE_LIST = "1;TRUE;YES;ON"; FALSE_LIST = "0;FALSE;NO;OFF"
+TRUE_LIST = ("1", "TRUE", "YES", "ON"); FALSE_LIST = ("0", "FALSE", "NO", "OFF")
 _num = re.compile(r'[ \t\n\v\f\r]*([+-]?)([0-9]+)')
 
 def ascii_upper(s):
     return "".join(chr(ord(c) - 32) if 'a' <= c <= 'z' else c for c in s)
 
 def expected(default, s, kib, max_alloc=PTRDIFF_MAX):
-    """returns (value, wellformed) for an environment string of at most 64 bytes"""
+    """returns (value, wellformed); a string longer than the 64-byte value buffer is malformed (the default stays)"""
+    if len(s) > 64: return default, False
     up = ascii_upper(s)
     if up == "" or up in TRUE_LIST: return 1, True
     if up in FALSE_LIST: return 0, True
